@@ -78,7 +78,9 @@ IsDl(k) == k = "m.dset"
 \* a jump must land on an outstanding target (which settles it and every earlier one), the newest one must land in time,
 \* and without an outstanding seek the sound just continues.  obs = last frame heard, cont = last frame had nothing jumped.
 IsSj(k) == k = "st.seek"
-SjLanded(m, e, k) == {i \in 1..Len(m.pend[k]) : m.pend[k][i].x <= e.obs[k] /\ e.obs[k] <= m.pend[k][i].x + e.n - 1}
+\* (m.dry = 1 after the frame ring ran dry - a "held" event of the driver: a decoder that did not deliver in time.  The first frame
+\*  that arrives after an underrun takes the place of "the previous frame" of the interpolator and is not heard itself: one frame more)
+SjLanded(m, e, k) == {i \in 1..Len(m.pend[k]) : m.pend[k][i].x <= e.obs[k] /\ e.obs[k] <= m.pend[k][i].x + e.n - 1 + m.dry}
 SjBad(m, e, k) ==
   IF e.obs[k] = e.cont[k]
   THEN (IF \E i \in 1..Len(m.pend[k]) : (m.pend[k][i].age + 1) * e.n > m.ring + 2 * e.n + 8 THEN "seek_heard_within_ring_latency" ELSE "")
@@ -89,7 +91,7 @@ SjPend(m, e, k) ==
   LET rest == IF e.obs[k] = e.cont[k] \/ SjLanded(m, e, k) = {} THEN m.pend[k]
               ELSE LET i == CHOOSE j \in SjLanded(m, e, k) : \A h \in SjLanded(m, e, k) : h <= j IN SubSeq(m.pend[k], i + 1, Len(m.pend[k]))
   IN [j \in 1..Len(rest) |-> [rest[j] EXCEPT !.age = @ + 1]]
-HInit(init) == [ val |-> init, pend |-> [k \in DOMAIN init |-> <<>>], later |-> [k \in DOMAIN init |-> <<>>], ring |-> 0 ]
+HInit(init) == [ val |-> init, pend |-> [k \in DOMAIN init |-> <<>>], later |-> [k \in DOMAIN init |-> <<>>], ring |-> 0, dry |-> 0 ]
 
 \* value in force after this callback / delayed command still waiting after it, for a delayed key
 DlVal(m, k) == IF m.pend[k] # <<>> THEN (IF m.pend[k][1].dl = 0 THEN m.pend[k][1].x ELSE m.val[k])
@@ -136,6 +138,8 @@ HCheck(m, e) ==
               ELSE IF m.pend[k] = <<>> THEN "no_effect_without_command_and_not_reapplied"
               ELSE "last_write_applied_at_next_callback"
     [] e.a = "panic" -> "no_panic"
+    \* the ring ran dry with a seek outstanding: the sound waits for its audio, it has not finished
+    [] e.a = "held" -> IF e.state \in {"Stopped", "panic"} /\ \E k \in DOMAIN m.val : IsSj(k) /\ m.pend[k] # <<>> THEN "last_write_applied_at_next_callback" ELSE ""
     [] OTHER -> ""
 
 HUpd(m, e) ==
@@ -147,5 +151,6 @@ HUpd(m, e) ==
                                          ELSE IF IsSj(k) \/ m.pend[k] = <<>> \/ e.jump[k] # "no" THEN m.val[k] ELSE m.pend[k][1]],
                                !.later = [k \in DOMAIN m.val |-> IF TookEarly(m, e, k) THEN <<>> ELSE IF IsDl(k) THEN DlLater(m, k) ELSE <<>>],
                                !.pend = [k \in DOMAIN m.val |-> IF IsSj(k) THEN SjPend(m, e, k) ELSE <<>>]]
+    [] e.a = "held" -> [m EXCEPT !.dry = 1]
     [] OTHER -> m
 =============================================================================
